@@ -1,5 +1,5 @@
 import slayer
-from props.scommon import scen, preempt_scenario, pp_exact_fit_scenario
+from props.scommon import scen, preempt_scenario, pp_exact_fit_scenario, join_scenario
 """C08 - valid configurations run to the end; shipped schedulers decide admissibly"""
 from layer_s import ALGOS
 
@@ -15,6 +15,8 @@ def scenarios(ctx, n):
         yield preempt_scenario(s + i)
     for i in range(n // 4):
         yield pp_exact_fit_scenario(s + i)
+    for i in range(max(12, n // 8)):
+        yield join_scenario(s + i, ["priority", "naive", "overbook", "template"][i % 4])
 
 
 def one_simulator_run(ctx, params, algo):
